@@ -153,7 +153,9 @@ def difference_check(ctx, c, outs):
     qb = g.normal(size=(c["n"], 4))
     qa /= np.linalg.norm(qa, axis=1)[:, None]
     qb /= np.linalg.norm(qb, axis=1)[:, None]
-    O1, O2 = ori(G1, qa), ori(G2, qb)
+    # the pairs in a 1-d, 2-d or 3-d arrangement: each difference belongs to the pair at its own position
+    shp = tuple(c.get("shape") or (c["n"],))
+    O1, O2 = ori(G1, qa.reshape(shp + (4,))), ori(G2, qb.reshape(shp + (4,)))
     with warnings.catch_warnings():
         warnings.simplefilter("ignore")
         try:
@@ -163,8 +165,9 @@ def difference_check(ctx, c, outs):
             return None
     ref = np.array([ang(brute_dot(G1, G2, qa[i], qb[i])) for i in range(c["n"])])
     for nm, w in (("O2 - O1", w21), ("O1 - O2", w12)):
-        if w.shape != ref.shape:
-            return f"angle of {nm} has shape {w.shape} for {c['n']} pairs"
+        if w.shape != shp:
+            return f"angle of {nm} has shape {w.shape} for pairs arranged as {shp}"
+        w = w.reshape(-1)
         bad = np.flatnonzero(np.abs(w - ref) > TOL_ANG)
         if bad.size:
             i = int(bad[0])
@@ -364,9 +367,11 @@ def generate(ctx):
     plist = [(names.index(a), names.index(b), nb) for a, b in fam if a in names and b in names]
     plist += [(k, k, 12) for k in range(nG)]
     plist += [(int(rng.integers(nG)), int(rng.integers(nG)), 40) for _ in range(10 if ctx.tier == "quick" else 100)]
-    for k1, k2, n in plist:
-        ctx.count("difference/" + ("same" if k1 == k2 else "two_groups"), ("df", k1, k2, n), nontrivial=gs[k1].size > 1)
-        yield "difference", {"k1": k1, "k2": k2, "bulk": int(rng.integers(1 << 31)), "n": n}
+    for j, (k1, k2, n) in enumerate(plist):
+        shape = [[n], [2, n // 2], [n // 4, 4], [2, n // 4, 2]][j % 4]          # every n used here is a multiple of 4
+        ctx.count("difference/" + ("same" if k1 == k2 else "two_groups") + f"/ndim{len(shape)}", ("df", k1, k2, n),
+                  nontrivial=gs[k1].size > 1)
+        yield "difference", {"k1": k1, "k2": k2, "bulk": int(rng.integers(1 << 31)), "n": n, "shape": shape}
     # outer products: shape pairs with different numbers of dimensions, eager and lazy
     shapes = [(1,), (2,), (3,), (1, 2), (2, 1), (2, 2), (1, 1, 2)]
     nout = 24 if ctx.tier == "quick" else 300
